@@ -107,21 +107,13 @@ def all_offsets(case):
     return offs
 
 
-def gen_case(rng, max_rows=4, rows=None, modes=(50, 30, 8, 9, 3), clean=False, max_inputs=8):
-    kind = rng.choice(KINDS)
-    via = 'create' if rng.random() < 0.65 else 'xml'
-    srcs, inputs = gen_layout(rng, kind, via, max_inputs=max_inputs, clean=clean)
-    case = {'kind': kind, 'via': via, 'srcs': srcs, 'inputs': inputs,
-            'material': rng.choice([None, 1, 2]),
-            'dtype': rng.choice(['int32', 'int32', 'int64', 'uint32']), 'vcform': rng.choice(['array', 'list'])}
+def make_stream(rng, case, rows, mode):
+    """index stream (and vcounts / polygons) for the case's layout -> dict of stream fields"""
+    kind, via = case['kind'], case['via']
     nind = max(all_offsets(case)) + 1
     k = KK[kind]
-    if rows is None:
-        rows = rng.choice([0, 1, 1, 2, 2, 3, max_rows])
     if k == 1:
-        vcounts = []
-        for _ in range(rows):
-            vcounts.append(rng.choice([0, 1, 2, 3, 3, 4, 5]))
+        vcounts = [rng.choice([0, 1, 2, 3, 3, 4, 5]) for _ in range(rows)]
         ncorners = sum(vcounts)
     else:
         vcounts = []
@@ -136,8 +128,6 @@ def gen_case(rng, max_rows=4, rows=None, modes=(50, 30, 8, 9, 3), clean=False, m
                 flat.append(rng.randint(0, 2))
             else:
                 flat.append(rng.randint(0, lim[o] - 1))
-    mode = rng.choices(['ok', 'oor', 'ragged', 'vcount', 'novertex'], list(modes))[0]
-    case['mode'] = mode
     if mode == 'oor' and ncorners > 0 and eff:
         off, sem, sid = rng.choice(eff)
         n = case['srcs'][sid][0]
@@ -152,23 +142,18 @@ def gen_case(rng, max_rows=4, rows=None, modes=(50, 30, 8, 9, 3), clean=False, m
             flat = flat[:len(flat) - rng.randint(1, max(1, period - 1))]
     if mode == 'vcount' and k == 1:
         r = rng.random()
-        if r < 0.35 and vcounts:
+        if r < 0.3 and vcounts:
             i = rng.randrange(len(vcounts))
             vcounts[i] = max(0, vcounts[i] + rng.choice([-1, 1, 2]))
-        elif r < 0.6:
+        elif r < 0.5:
             vcounts.append(rng.choice([1, 3]))
-        elif r < 0.8 and vcounts:
+        elif r < 0.65 and vcounts:
             vcounts.pop(rng.randrange(len(vcounts)))
+        elif r < 0.8 and flat:
+            vcounts = []                      # no polygons at all, yet an index stream
         else:
             flat = flat + flat[:nind] if flat else [0] * nind
-    if mode == 'novertex':
-        # no vertex input: only where the code has a defined answer (lines: DaeIncompleteError;
-        # other kinds: an empty stream is accepted with every view absent)
-        keep = [i for i in case['inputs'] if i[1] != 'VERTEX']
-        if keep:
-            case['inputs'] = keep
-            if kind != 'line':
-                flat, vcounts = [], []
+    out = {}
     if kind == 'polygons':
         polys = []
         pos = 0
@@ -177,16 +162,69 @@ def gen_case(rng, max_rows=4, rows=None, modes=(50, 30, 8, 9, 3), clean=False, m
             pos += vc * nind
         if pos < len(flat):
             polys.append(flat[pos:])
-        if mode == 'ragged' and polys and rng.random() < 0.5:
+        if mode == 'ragged' and polys and rng.random() < 0.5 and nind > 1:
             # two individually ragged polygons whose total length divides evenly
-            if nind > 1:
-                polys = polys + [[0] * (nind + 1), [0] * (nind - 1)]
-        case['polys'] = polys
+            polys = polys + [[0] * (nind + 1), [0] * (nind - 1)]
+        out['polys'] = polys
     else:
-        case['flat'] = flat
+        out['flat'] = flat
         if kind == 'polylist':
-            case['vcounts'] = vcounts
+            out['vcounts'] = vcounts
+    return out
+
+
+def gen_case(rng, max_rows=4, rows=None, modes=(50, 30, 8, 9, 3), clean=False, max_inputs=8):
+    kind = rng.choice(KINDS)
+    via = 'create' if rng.random() < 0.65 else 'xml'
+    srcs, inputs = gen_layout(rng, kind, via, max_inputs=max_inputs, clean=clean)
+    case = {'kind': kind, 'via': via, 'srcs': srcs, 'inputs': inputs,
+            'material': rng.choice([None, 1, 2]),
+            'dtype': rng.choice(['int32', 'int32', 'int64', 'uint32']), 'vcform': rng.choice(['array', 'list'])}
+    if via == 'xml':
+        param_forms(rng, case, clean)
+    if rows is None:
+        rows = rng.choice([0, 1, 1, 2, 2, 3, max_rows])
+    mode = rng.choices(['ok', 'oor', 'ragged', 'vcount', 'novertex'], list(modes))[0]
+    case['mode'] = mode
+    if mode == 'novertex':
+        # no vertex input: only where the code has a defined answer (lines: DaeIncompleteError;
+        # other kinds: an empty stream is accepted with every view absent)
+        keep = [i for i in case['inputs'] if i[1] != 'VERTEX']
+        if keep:
+            case['inputs'] = keep
+            if kind != 'line':
+                rows = 0
+    case.update(make_stream(rng, case, rows, mode))
+    if via == 'create' and mode != 'novertex' and rng.random() < 0.3:
+        # earlier constructions on the same geometry, sources and InputList (outcome irrelevant):
+        # state must not leak from one construction into the next
+        case['prelude'] = [make_stream(rng, case, rng.choice([1, 2]), rng.choice(['ok', 'ok', 'oor']))
+                           for _ in range(rng.choice([1, 1, 2]))]
     return case
+
+
+def param_forms(rng, case, clean):
+    """load path only: vary how a source's accessor names its <param>s.  The number of <param>
+    elements is the source's component count whatever their names (checkSource overwrites the
+    names when the count fits)."""
+    names = {}
+    for i, (n, nc) in enumerate(case['srcs']):
+        r = rng.random()
+        base = {1: ['A'], 2: ['S', 'T'], 3: ['X', 'Y', 'Z'], 4: ['R', 'G', 'B', 'A']}[nc]
+        if r < 0.06:
+            names[str(i)] = [None] * nc                                   # no names at all
+        elif r < 0.12:
+            names[str(i)] = [None if rng.random() < 0.5 else c for c in base]
+        elif r < 0.16 and nc == 2:
+            names[str(i)] = ['U', 'V']                                    # converted to S, T by the loader
+        elif r < 0.22 and nc == 3:
+            names[str(i)] = ['R', 'G', 'B']
+        elif r < 0.30 and not clean and nc < 4:
+            extra = rng.choice([1, 1, 2]) if nc < 3 else 1
+            names[str(i)] = base + [None] * extra                         # named as wanted + unnamed placeholders
+            case['srcs'][i][1] = nc + extra
+    if names:
+        case['pnames'] = names
 
 
 def gen_source_case(rng):
